@@ -308,6 +308,19 @@ func c20Case(c *Ctx) *Result {
 			if r.Intn(3) == 0 {
 				patch.HttpProxyPort = proto.Int32(3128)
 			}
+			// one more top-level setting, alone: whatever else is stored must stay
+			switch r.Intn(6) {
+			case 0:
+				patch.Socks5ListenLAN = proto.Bool(r.Intn(2) == 0)
+			case 1:
+				if patch.HttpProxyPort == nil && cc.HttpProxyPort == nil {
+					patch.Socks5Authentication = []*pb.Auth{{User: proto.String("patched-user"), Password: proto.String(fmt.Sprintf("patched-%d", r.Uint32()))}}
+				}
+			case 2:
+				patch.RpcPort = proto.Int32(int32(9000 + r.Intn(500)))
+			case 3:
+				patch.HttpProxyListenLAN = proto.Bool(r.Intn(2) == 0)
+			}
 			pj, _ := mcommon.MarshalJSON(patch)
 			pf := filepath.Join(dir, "patch.json")
 			os.WriteFile(pf, pj, 0o644)
@@ -323,10 +336,6 @@ func c20Case(c *Ctx) *Result {
 				if patch.HttpProxyPort == nil && after.GetHttpProxyPort() != before.GetHttpProxyPort() {
 					fail("patch-changed-unset-field|httpProxyPort", "")
 				}
-				if after.GetActiveProfile() != before.GetActiveProfile() || after.GetSocks5Port() != before.GetSocks5Port() || after.GetRpcPort() != before.GetRpcPort() ||
-					!proto.Equal(after.GetAdvancedSettings(), before.GetAdvancedSettings()) || len(after.GetSocks5Authentication()) != len(before.GetSocks5Authentication()) {
-					fail("patch-changed-unset-field", "a client patch that sets only a profile changed other top-level fields")
-				}
 				byName := map[string]*pb.ClientProfile{}
 				for _, p := range after.Profiles {
 					byName[p.GetProfileName()] = p
@@ -338,6 +347,33 @@ func c20Case(c *Ctx) *Result {
 				}
 				if bp := byName[np.GetProfileName()]; bp == nil || bp.GetUser().GetName() != np.GetUser().GetName() {
 					fail("patch-profile-not-applied", np.GetProfileName())
+				}
+				// field by field: a top-level field the patch sets takes the patch's
+				// value, every other one keeps the stored value
+				fds := patch.ProtoReflect().Descriptor().Fields()
+				for i := 0; i < fds.Len(); i++ {
+					fd := fds.Get(i)
+					if fd.Name() == "profiles" {
+						continue
+					}
+					want, wh := before, "patch-changed-unset-field|"
+					if patch.ProtoReflect().Has(fd) {
+						want, wh = patch, "patch-field-not-applied|"
+					}
+					a := &pb.ClientConfig{}
+					b := &pb.ClientConfig{}
+					// (an unset scalar and its default value are the same setting)
+					scalar := !fd.IsList() && !fd.IsMap() && fd.Message() == nil
+					if scalar || want.ProtoReflect().Has(fd) {
+						a.ProtoReflect().Set(fd, want.ProtoReflect().Get(fd))
+					}
+					if scalar || after.ProtoReflect().Has(fd) {
+						b.ProtoReflect().Set(fd, after.ProtoReflect().Get(fd))
+					}
+					if !proto.Equal(a, b) {
+						fail(wh+string(fd.Name()), fmt.Sprintf("client patch %s: field %s is %s afterwards, expected %s", trunc(string(pj), 200), fd.Name(), trunc(b.String(), 120), trunc(a.String(), 120)))
+					}
+					res.Obs["patch_fields_compared"]++
 				}
 			}
 		}
